@@ -314,7 +314,11 @@ func finite(m *afm.Metrics) bool {
 			return false
 		}
 	}
-	return ok(m.CapHeight) && ok(m.XHeight) && ok(m.Ascent) && ok(m.Descent) && ok(m.UnderlinePosition) && ok(m.UnderlineThickness) && ok(m.ItalicAngle)
+	// header numbers are plain floating-point fields: any finite value the
+	// reader accepts is in the domain (boxes and widths are stored in narrower
+	// types and stay within 1e9)
+	fin := func(v float64) bool { return !math.IsNaN(v) && !math.IsInf(v, 0) }
+	return fin(m.CapHeight) && fin(m.XHeight) && fin(m.Ascent) && fin(m.Descent) && fin(m.UnderlinePosition) && fin(m.UnderlineThickness) && fin(m.ItalicAngle)
 }
 
 func closeTo(a, b *afm.Metrics) string {
@@ -425,7 +429,12 @@ func genAFMText(t *rapid.T) ([]byte, bool) {
 	}
 	for _, k := range []string{"CapHeight", "XHeight", "Ascender", "Descender", "UnderlinePosition", "UnderlineThickness", "ItalicAngle"} {
 		if rapid.IntRange(0, 3).Draw(t, "num") > 0 {
-			line(k + " " + numf(k))
+			if rapid.IntRange(0, 9).Draw(t, "hugehdr") == 0 {
+				// header numbers far beyond the integer types
+				line(k + " " + rapid.SampledFrom([]string{"1e19", "-3e25", "9223372036854775808", "-9223372036854775809", "18446744073709551616", "1e300", "4294967296.5", "2147483648", "-2147483649"}).Draw(t, "hugev"))
+			} else {
+				line(k + " " + numf(k))
+			}
 		}
 	}
 	if rapid.Bool().Draw(t, "fp") {
@@ -469,7 +478,7 @@ func genAFMText(t *rapid.T) ([]byte, bool) {
 func TestP2Closure(t *testing.T) {
 	rec := ev.New("C15", "closure")
 	defer rec.Finish(t)
-	rec.Rule("AFM texts from a line grammar: header keys present or absent with multi-word text and extra spaces, numbers with fractions, exponents, signs and values up to 1e9, IsFixedPitch spellings; glyph lines with codes out of range (-5, 256, 300), duplicate codes and names, widths beyond int16, fractional boxes, 0-2 ligatures, junk fields, missing names; kerning values beyond int16; LF and CRLF. F1 = Read(x) (rejected, non-finite or > 1e9 inputs are counted and discarded); F2 = Read(Write(F1)) must keep all names and text fields and change every number by less than 1; F3 = Read(Write(F2)) must equal F2 (field comparison and reflect.DeepEqual). Non-trivial: >= 3 glyph lines and >= 1 fractional number; distinct by text.")
+	rec.Rule("AFM texts from a line grammar: header keys present or absent with multi-word text and extra spaces, numbers with fractions, exponents, signs and values up to 1e9 (header numbers also 2^31, 2^63, 2^64, 1e19, -3e25, 1e300), IsFixedPitch spellings; glyph lines with codes out of range (-5, 256, 300), duplicate codes and names, widths beyond int16, fractional boxes, 0-2 ligatures, junk fields, missing names; kerning values beyond int16; LF and CRLF. F1 = Read(x) (rejected or non-finite inputs, and glyph-level numbers beyond 1e9, are counted and discarded); F2 = Read(Write(F1)) must keep all names and text fields and change every number by less than 1; F3 = Read(Write(F2)) must equal F2 (field comparison and reflect.DeepEqual). Non-trivial: >= 3 glyph lines and >= 1 fractional number; distinct by text.")
 	ev.SetupRapid(60000, 1600000)
 	rapid.Check(t, func(t *rapid.T) {
 		text, frac := genAFMText(t)
